@@ -394,9 +394,10 @@ Step(e) ==
               \* C14: eventually reclaimed, once
               \cup FlagS("C14", ~e.final \/ ~cfg.cb \/ \A v \in expiredLong : Get0(exitN, v) = 1,
                                "an entry whose TTL elapsed long ago was never released through OnExit",
-                               IF \A v \in expiredLong : Get0(exitN, v) = 1 \/ HashOfK(vkey[v]) \in lateAdd THEN "F5"
-                               ELSE IF \A v \in expiredLong : Get0(exitN, v) = 1 \/
-                                         \E k2 \in keysSeen : k2 # vkey[v] /\ HashOfK(k2) = HashOfK(vkey[v]) THEN "F9" ELSE "")
+                               \* (the collision signature first: with colliding keys a value can be both late-applied and leaked)
+                               IF \A v \in expiredLong : Get0(exitN, v) = 1 \/
+                                    \E k2 \in keysSeen : k2 # vkey[v] /\ HashOfK(k2) = HashOfK(vkey[v]) THEN "F9"
+                               ELSE IF \A v \in expiredLong : Get0(exitN, v) = 1 \/ HashOfK(vkey[v]) \in lateAdd THEN "F5" ELSE "")
               \cup Flag("C14", ~e.final \/ ~cfg.cb \/ ~cfg.ample \/ \A v \in expiredLong : Get0(exitN, v) # 1 \/ Get0(evictN, v) + Get0(rejectN, v) = 1
                                    \/ vkey[v] \in delKeys \/ \E u \in DOMAIN vkey : u # v /\ vkey[u] = vkey[v],
                                "an expired entry was released without OnEvict")
@@ -405,7 +406,8 @@ Step(e) ==
                                "an entry whose TTL elapsed long ago still occupies the cache",
                                IF \A i \in DOMAIN e.probeRaw : LET v == e.probeRaw[i][2] IN
                                    v = 0 \/ v \notin DOMAIN vttl \/ vttl[v] = 0 \/ e.t <= vte[v] + vttl[v] + e.margin
-                                   \/ HashOfK(vkey[v]) \in lateAdd THEN "F5" ELSE "")
+                                   \/ HashOfK(vkey[v]) \in lateAdd THEN "F5"
+                               ELSE IF cfg.coll THEN "F9" ELSE "")
               \* C15: directly after a Clear that overlapped nothing the cache is empty and reset
               \cup Flag("C15", lastEv # "ClearEnd" \/ clearEver \/
                                  (Len(e.storekeys) = 0 /\ Len(e.polkeys) = 0 /\ e.remaining = e.maxcost /\ Len(e.iter) = 0 /\ e.emn = 0),
